@@ -62,9 +62,9 @@ fn res_str<T>(r: &Result<Result<T, ant_registers::Error>, String>) -> String {
 }
 
 impl World {
-    fn new(seed: u64) -> Self {
-        // keys depend only on a fixed seed so that scenario files replay identically
-        let mut r = rng(0xC06 ^ (seed & 0));
+    fn new() -> Self {
+        // the keys do not depend on VERIF_SEED, so that a scenario file replays to the same bytes
+        let mut r = rng(0xC06);
         let keys = (0..N_KEYS).map(|_| r.gen::<SecretKey>()).collect();
         World { keys, fillers: Mutex::new(HashMap::new()), padded: Mutex::new(HashMap::new()), opcache: Mutex::new(HashMap::new()) }
     }
@@ -439,6 +439,7 @@ fn gen_scenario(r: &mut impl Rng, id: usize, mode: &str) -> Value {
     let m = if limit_run { r.gen_range(8..=14) } else { r.gen_range(8..=24) };
     let mut pool: Vec<Value> = vec![];
     let mut next_node = 1usize;
+    let mut have_empty = false;
     for _ in 0..m {
         let kind = r.gen_range(0..100);
         let mut deps: Vec<usize> = vec![];
@@ -450,7 +451,9 @@ fn gen_scenario(r: &mut impl Rng, id: usize, mode: &str) -> Value {
                 if !deps.contains(&d) { deps.push(d); }
             }
         }
-        let small = if r.gen_bool(0.1) { 1024 } else if r.gen_bool(0.05) { 0 } else { r.gen_range(6..40) };
+        // entry lengths: mostly small, sometimes exactly at the size limit, at most one empty entry per
+        // scenario (two empty entries with the same deps would be one and the same DAG node)
+        let small = if r.gen_bool(0.1) { 1024 } else if !have_empty && r.gen_bool(0.05) { have_empty = true; 0 } else { r.gen_range(10..40) };
         let o = if kind < 55 || pool.is_empty() {
             json!({"signer": *allowed.choose(r).expect("w"), "sigOk": true, "big": false, "deps": deps, "addr": 1, "node": next_node, "vlen": small, "forge": 0})
         } else if kind < 66 {
@@ -569,45 +572,10 @@ fn main() {
         println!("{}", json!({"scenarios": lines, "seed": seed}));
         return;
     }
-    if std::env::args().any(|a| a == "--bench") {
-        let w = World::new(seed);
-        let b = json!({"addr": 1, "open": true, "writers": [], "sigOk": true});
-        let t = std::time::Instant::now();
-        let f = w.fillers(1);
-        eprintln!("fillers {:?}", t.elapsed());
-        let t = std::time::Instant::now();
-        let h = w.honest(&b, 1021);
-        eprintln!("honest open {:?}", t.elapsed());
-        let p = Pool { ops: vec![], id_of: HashMap::new(), node_of: HashMap::new() };
-        let t = std::time::Instant::now();
-        let _ = project(&h.0, &p, &f);
-        eprintln!("project {:?}", t.elapsed());
-        let t = std::time::Instant::now();
-        let mut n = 0;
-        for op in h.0.ops() { if f.idx.contains_key(op) { n += 1; } }
-        eprintln!("lookups {:?} {n}", t.elapsed());
-        let t = std::time::Instant::now();
-        let mut c = RegisterCrdt::new(*h.0.address());
-        for op in h.0.ops() { let _ = c.apply_op(op.clone()); }
-        eprintln!("apply {:?}", t.elapsed());
-        let t = std::time::Instant::now();
-        let rd = c.read();
-        eprintln!("read {:?} {}", t.elapsed(), rd.len());
-        let t = std::time::Instant::now();
-        let _ = h.0.verify();
-        eprintln!("verify {:?}", t.elapsed());
-        let t = std::time::Instant::now();
-        let mut x = h.0.clone();
-        eprintln!("clone {:?}", t.elapsed());
-        let t = std::time::Instant::now();
-        let _ = x.merge(&h.0);
-        eprintln!("merge {:?}", t.elapsed());
-        return;
-    }
     let path = arg("--run").expect("--run or --gen");
     let threads: usize = arg("--threads").and_then(|s| s.parse().ok()).unwrap_or(8);
     let scs = Arc::new(read_ndjson(&path));
-    let w = Arc::new(World::new(seed));
+    let w = Arc::new(World::new());
     let next = Arc::new(Mutex::new(0usize));
     let results: Arc<Mutex<Vec<Option<Vec<Value>>>>> = Arc::new(Mutex::new(vec![None; scs.len()]));
     let mut hs = vec![];
